@@ -326,3 +326,23 @@ Theorem C13_reuse_table_is_model : forall (f : uflags) (ch : chart) (cur : revis
   = Some (reuse_values_fn f ch cur newv).
 Proof. exact reuse_rows_are_model. Qed.
 Print Assumptions C13_reuse_table_is_model.
+
+(* ---- round 5: storage read faults (Values/ReuseRead.v) ----
+   The value model has no faults; the harness injects a failing read of the release store into
+   upgrades and rollbacks and the oracle judges the real code.  What the model says about the
+   shape the seeded change C13-10 needs: with a truthful lookup of the deployed revision the
+   base of an upgrade is the deployed revision however many failed ones follow it; with the
+   lookup answered "nothing is deployed" (what C13-10 makes Storage.DeployedAll do with every
+   error) it is the newest, failed, revision. *)
+From Helm Require Values.ReuseRead.
+
+Theorem C13_base_skips_failed_revisions :
+  forall n, current_idx (SDeployed :: repeat SFailed (S n)) = Some 1.
+Proof. exact Values.ReuseRead.current_idx_skips_failed. Qed.
+Print Assumptions C13_base_skips_failed_revisions.
+
+Theorem C13_lost_deployed_lookup_refuted :
+  current_idx [SDeployed; SFailed] = Some 1 /\
+  Values.ReuseRead.current_idx_lost [SDeployed; SFailed] = Some 2.
+Proof. exact Values.ReuseRead.current_idx_lost_refuted. Qed.
+Print Assumptions C13_lost_deployed_lookup_refuted.
